@@ -375,6 +375,10 @@ class Effects(object):
                 inner = k[1]
                 if inner[0] in ('global', 'clsattr') and self.holds_containers(inner):
                     out.add(inner)        # a (container) element of a shared container is shared
+                if inner[0] in ('elem', 'typed') and k not in _guard and len(_guard) < 6:
+                    for r in self.origins({inner}, limit, _guard | {k}):
+                        if r[0] in ('global', 'clsattr') and self.holds_containers(r):
+                            out.add(r)
                 if through_holds:   # objects stored into a container at run time (imprecise: informational only)
                     work.extend(self.holds.get(inner, ()))
                 for a in self.edges.get(inner, ()):
